@@ -438,7 +438,7 @@ func emptyAcc() Acc {
 		Channel: v, Port: v, Seqno: v, Seqdata: s, Smpte: v, Tempo: AccT{Bpm: dyOf(0)}, Timesig: v, Meter: v}
 }
 
-// run executes one call (constructor, then all accessors) under recover and a 10 s watchdog.
+// run executes one call (constructor, then all accessors) under recover and a 30 s watchdog.
 func run(c *Call) {
 	c.Ev = "call"
 	if c.A == nil {
@@ -479,8 +479,8 @@ func run(c *Call) {
 	select {
 	case <-done:
 		c.Bytes, c.Acc, c.Panic, c.Stable = bytes, acc, pan, stable
-	case <-time.After(10 * time.Second):
-		c.Panic, c.Stable = "timeout: no answer within 10 s", true
+	case <-time.After(30 * time.Second):
+		c.Panic, c.Stable = "timeout: no answer within 30 s", true
 	}
 }
 
